@@ -224,7 +224,10 @@ def checkScenario (actors : List ActorLog) (psent precv : List Dg) (observers : 
             match compareOut mine (precv.filter (fun d => d.src == me)) with
             | some e => some s!"actor={i} {e}"
             | none =>
-              let undelivered := left.filter fun d => (deMsg d.bytes).isSome && d.t + grace ≤ tEnd
+              -- a datagram must be delivered if it parses, was sent after the destination socket was bound
+              -- (on_start runs after bind) and long enough before the end of the observation
+              let tStart := match a.log.head? with | some (.start t _ _) => t | _ => tEnd
+              let undelivered := left.filter fun d => (deMsg d.bytes).isSome && d.t + grace ≤ tEnd && tStart ≤ d.t
               if !a.log.isEmpty && !undelivered.isEmpty then
                 some s!"actor={i} datagram-not-delivered n={undelivered.length} first={(undelivered.head?.map dgKey).getD ""}"
               else go rest (i + 1)
